@@ -1138,6 +1138,53 @@ example (x : Array ℚ) (hx : x.size = 12) (fftw plus : Bool) :
   have : a = 2 ∨ a = 0 := by simpa using ha
   rcases this with rfl | rfl <;> exact ⟨by simpa using h2, by norm_num⟩
 
+/-- **Real spaces without half-complex** (`DiscreteFourierTransform(real space, halfcomplex=False)`
+and the inverse its `inverse` property returns, whose REAL range receives the real part of the
+complex result — NumPy: assignment to the real array, pyfftw: `out[:] = tmp.real`; in the driver
+`y.map re`, compared with the real operators in the `dft` stream with `real=1 hc=0`): for every
+shape, duplicate-free axes list, sign, back-end and every REAL array `x`, forward followed by the
+inverse INCLUDING the real-part step returns `(shape, x)` exactly.  Corollary of `dft_nd_inverse`;
+`re` is any map fixing the `σ`-fixed elements. -/
+theorem C18.dft_nd_inverse_real_range {K : Type} [Field K] [Inhabited K] (σ : K →+* K)
+    (re : K → K) (hre : ∀ z, σ z = z → re z = z)
+    (roots : Nat → Option (K × K)) (w : Nat → K) (hroots : ∀ n, roots n = some (w n, (w n)⁻¹))
+    (fftw plus : Bool) (rshape axes : List Nat) (hnd : axes.Nodup)
+    (hin : ∀ a ∈ axes, a < rshape.length)
+    (hprim : ∀ a ∈ axes, IsPrimRoot (w (rshape.getD a 1)) (rshape.getD a 1) ∧
+      ((rshape.getD a 1 : Nat) : K) ≠ 0)
+    (x : Array K) (hx : x.size = OdlModel.Wavelet.prod rshape)
+    (hreal : ∀ i, σ (x.getD i default) = x.getD i default) :
+    ((dftForwardNd roots fftw plus false rshape axes x).bind
+        (fun r => dftInverseNd roots σ re fftw (!plus) false rshape axes r.2)).map
+      (fun r => (r.1, r.2.map re)) = some (rshape, x) := by
+  rw [C18.dft_nd_inverse σ re roots w hroots fftw plus rshape axes hnd hin hprim x hx]
+  simp only [Option.map_some]
+  congr 2
+  apply Array.ext
+  · simp
+  · intro i h1 h2
+    have := hreal i
+    simp only [Array.getD, h2, dite_true] at this
+    simp only [Array.getElem_map]
+    exact hre _ this
+
+/-- Non-vacuity: shape `(2, 3, 2)`, axes `(2, 0)`, `K = ℚ`, `σ = id`. -/
+example (x : Array ℚ) (hx : x.size = 12) (fftw plus : Bool) :
+    ((dftForwardNd (fun n => some (if n = 2 then (-1 : ℚ) else 1, (if n = 2 then (-1 : ℚ) else 1)⁻¹))
+        fftw plus false [2, 3, 2] [2, 0] x).bind
+      (fun r => dftInverseNd (fun n => some (if n = 2 then (-1 : ℚ) else 1, (if n = 2 then (-1 : ℚ) else 1)⁻¹))
+        (RingHom.id ℚ) id fftw (!plus) false [2, 3, 2] [2, 0] r.2)).map (fun r => (r.1, r.2.map id))
+      = some ([2, 3, 2], x) := by
+  have h2 : IsPrimRoot (-1 : ℚ) 2 := ⟨by norm_num, by
+    intro d hd hd2; have : d = 1 := by omega
+    subst this; norm_num⟩
+  refine C18.dft_nd_inverse_real_range (RingHom.id ℚ) id (fun z _ => rfl) _
+    (fun n => if n = 2 then (-1 : ℚ) else 1) (fun _ => rfl) fftw plus
+    [2, 3, 2] [2, 0] (by decide) (by decide) ?_ x (by simpa [OdlModel.Wavelet.prod] using hx) (fun _ => rfl)
+  intro a ha
+  have : a = 2 ∨ a = 0 := by simpa using ha
+  rcases this with rfl | rfl <;> exact ⟨by simpa using h2, by norm_num⟩
+
 /-- **The continuous-FT approximation in n dimensions recovers its input through its inverse,
 any number of axes, any shift tuple** (full-complex case; the executed per-axis definitions
 `ftForwardSepNd` / `ftInverseSepNd`, compared with `FourierTransform` / `FourierTransformInverse` in
